@@ -311,12 +311,12 @@ func genXm(r *core.Rand, pr Profile, sec bool, mayClose bool, seqMode bool) stri
 	}
 	switch o {
 	case "fail":
-		fk := r.Pick("none", "head", "garbage")
+		fk := r.Pick("none", "head", "garbage", "ctlname", "leadsp")
 		if xr == "nohost10" || xr == "emptyhost" {
 			fk = "none"
 		} else
 		if seqMode && !sec && r.Chance(1, 3) {
-			fk = r.Pick("refuse", "dtimeout")
+			fk = r.Pick("refuse", "dtimeout", "badport")
 		}
 		if xr == "" && seqMode && sec && r.Chance(1, 2) { // the https target's port does not hold a usable TLS server
 			fk = r.Pick("tlsplain", "tlsplain", "tlsbadcert", "tlsclose")
@@ -357,11 +357,20 @@ func genXm(r *core.Rand, pr Profile, sec bool, mayClose bool, seqMode bool) stri
 		kv = append(kv, fmt.Sprintf("ea=%d", r.Pick2(1, 1024)))
 		core.Count("early:generated")
 	}
-	if sec {
+	if seqMode && o == "ok" && xr == "" && r.Chance(1, 12) { // authority spellings (authority.go)
+		au := AuthorityKinds[r.Intn(len(AuthorityKinds))]
+		if sec && (au == "dot" || au == "v6") {
+			au = "d"
+		}
+		kv = append(kv, "au="+au)
+		core.Count("authority:" + au)
+	} else if sec {
 		if seqMode && o == "ok" && r.Chance(1, 5) {
 			kv = append(kv, "via=sniff") // the origin port tells a ClientHello from a cleartext request (upfault.go)
 			core.Count("upfault:via-sniff")
 		}
+	}
+	if sec {
 		kv = append(kv, "sec=1")
 	}
 	return strings.Join(kv, " ")
@@ -470,6 +479,9 @@ func GenCase(r *core.Rand, pr Profile) []string {
 	if (pr.Rich || pr.Faults) && r.Chance(1, 40) {
 		return GenReuseCase(r)
 	}
+	if pr.Rich && r.Chance(1, 25) {
+		return GenPipeCloseCase(r)
+	}
 	if pr.Rich && r.Chance(1, 250) {
 		return GenUnreadCase(r, r.Pick2(4, r.Pick2(8, 16))<<20)
 	}
@@ -556,7 +568,7 @@ func GenCase(r *core.Rand, pr Profile) []string {
 			tg = fmt.Sprintf(" tg=rst k=%d", r.Pick2(r.Pick2(0, 1), r.Pick2(100, 5000)))
 			core.Count("tunnel:target-resets")
 		}
-		ops = append(ops, strings.TrimSpace(fmt.Sprintf("cblind dial=%s dk=%s rq=%s rs=%s %s", b01(dialOK), r.Pick("refuse", "timeout", "eof"), rq, rs, strings.Join(errKinds(r, rq, rs), " "))+tg))
+		ops = append(ops, strings.TrimSpace(fmt.Sprintf("cblind dial=%s dk=%s rq=%s rs=%s %s", b01(dialOK), r.Pick("refuse", "timeout", "eof", "badport", "noport"), rq, rs, strings.Join(errKinds(r, rq, rs), " "))+tg))
 		for i := 0; i < r.Intn(3); i++ {
 			ops = append(ops, genX(r, pr, false, true))
 		}
@@ -570,7 +582,7 @@ func GenCase(r *core.Rand, pr Profile) []string {
 			break
 		}
 		listener := r.Pick("mitm", "mitm", "shapedmitm", "tlsmitm")
-		ops = append(ops, "conn mode=seq listener="+listener+" shutdown=0"+tflip(r, listener))
+		ops = append(ops, "conn mode=seq listener="+listener+" shutdown=0"+tflip(r, listener)+map[bool]string{true: " pre=" + r.Pick("tls", "tls,tls"), false: ""}[!listenerTLS(listener) && r.Chance(1, 2)])
 		if r.Chance(1, 3) { // a tunnel whose handshake fails, then one that carries plain HTTP
 			ops = append(ops, genFailedConnect(r, pr))
 		}
@@ -587,6 +599,19 @@ func GenCase(r *core.Rand, pr Profile) []string {
 		}
 		for i := 0; i < pre; i++ {
 			ops = append(ops, genX(r, pr, listenerTLS(listener), true))
+		}
+		if r.Chance(1, 3) { // earlier connections through the same proxy (multiconn.go)
+			ops[len(ops)-1-pre] += " pre=" + r.Pick("tls", "tls,plain", "plain,tls", "tls,tls")
+		}
+		if r.Chance(1, 4) { // the requests inside the tunnel are pipelined
+			ops[len(ops)-1-pre] += " tpipe=1"
+			ops = append(ops, genConnect(r, pr, true))
+			for i := 0; i < n; i++ {
+				ops = append(ops, genXm(r, pr, true, i == n-1, false))
+			}
+			core.Count("tunnel:pipelined-inside")
+			ops = append(ops, "end")
+			return ops
 		}
 		ops = append(ops, genConnect(r, pr, true))
 		for i := 0; i < n; i++ {
@@ -678,6 +703,31 @@ func GenReuseCase(r *core.Rand) []string {
 		ops = append(ops, fmt.Sprintf("x m=%s tf=abs pv=11 ct=- hs=%d hdr=1 ohdr=1 rb=%d rf=cl rq=pass rs=pass o=ok st=%s ob=%d of=%s opv=11 oct=- gz=0%s",
 			m, r.Range(1, 9999), rb, r.Pick("200", "200", "404"), r.Range(1, 400), r.Pick("cl", "ch"), oi))
 	}
+	return append(ops, "end")
+}
+
+// GenPipeCloseCase: a small pipelined batch (one write, well inside what the proxy reads at once, so
+// that closing leaves nothing unread in the socket) in which ONE side asks to close in the middle: the
+// origin on a length- or chunk-delimited response, or the client. The proxy closes after that
+// response; the requests pipelined behind it are not answered.
+func GenPipeCloseCase(r *core.Rand) []string {
+	ops := []string{"conn mode=pipe listener=plain shutdown=0"}
+	n := r.Range(2, 5)
+	closer := r.Intn(n - 1) // never the last: something is buffered behind it
+	for i := 0; i < n; i++ {
+		ct, oct, of := "-", "-", r.Pick("cl", "ch")
+		if i == closer {
+			switch r.Intn(4) {
+			case 0:
+				ct = hexLines([]string{"close"})
+			default:
+				oct = hexLines([]string{r.Pick("close", "Close", "x-verif-hop, close")})
+			}
+		}
+		ops = append(ops, fmt.Sprintf("x m=GET tf=%s pv=11 ct=%s hs=%d hdr=0 ohdr=0 rb=0 rf=cl rq=pass rs=pass o=ok st=200 ob=%d of=%s opv=11 oct=%s gz=0",
+			r.Pick("abs", "origin"), ct, i+1, r.Range(1, 200), of, oct))
+	}
+	core.Count("pipe:close-in-the-middle")
 	return append(ops, "end")
 }
 
